@@ -5,7 +5,7 @@ COMPONENTS_SIM = {
               'guest code (scripted by the plan)', 'fault box (allocator / create / grant / lookup failures)'],
 }
 
-WORLDS = ['apptoken', 'mem', 'callback']
+WORLDS = ['apptoken', 'mem', 'callback', 'invoke', 'toctou']
 
 PROPS = {
     'C15': dict(
@@ -84,4 +84,44 @@ PROPS.update({
                                'owner_released_after_destroy_sandbox', 'F7_capacity_exhausted', 'duplicate_registration_attempted',
                                'guest_called_vacant_or_foreign_entry', 'F12_destroy_sandbox_with_live_owners'],
                 assumptions=CB_ASSUME),
+})
+
+INV_RULE = ('one run = one seeded history (<=50 ops) over 1-3 sim-backend instances bound to two libraries that export the same names at different table indices, '
+            'plus two real dylib instances loading libguest0/1.so and a noop instance: invocations of 10 signatures (7 integer kinds incl. long/unsigned long/size_t, '
+            'float/double, enum+bool, data pointers and nullptr, callback + sandbox-function address, by-value struct in and out, void, 12 parameters) with arguments as plain '
+            'primitives, tainted, tainted_opaque and mixes, boundary-biased values including ones not representable in the guest type, scripted result bits; interleaved with '
+            'get_sandbox_function_address before/after the function was invoked, destroy and re-creation with the other library; oracle = guest-side log (exactly one record, '
+            'named function, library of the instance used, reference-converted argument bits or abort before any record) and reference back-conversion of the result; '
+            'non-trivial = fault fired or probe hit; distinct = event-log hashes')
+INV_WORLD = dict(world='invoke', variants=['plain'], quick=dict(count=160000, time_limit=60), thorough=dict(count=8000000, time_limit=900))
+PROPS.update({
+    'C11': dict(level='exploration', worlds=[INV_WORLD, MEM_WORLD], rule=INV_RULE, components=CB_COMPONENTS,
+                expect_probes=['two_or_more_live_instances', 'instance_recreated', 'function_address_obtained_earlier', 'F9_unrepresentable_argument',
+                               'two_dylib_instances_with_different_libraries', 'dylib_invoke'],
+                assumptions=['struct arguments are generated with representable fields only: a failing field conversion runs inside a noexcept accessor and ends in std::terminate rather than a catchable abort',
+                             'each argument is given in its parameter\'s own type, as the statement says',
+                             'the guest functions are host functions with guest-ABI signatures (stub); dylib/noop run a real C library']),
+})
+
+TOCTOU_RULE = ('one run = one copy_and_verify scenario (18 variants: string with unique_ptr / std::string verifier from a tainted pointer and from a pointer cell; ranges of '
+               'char/short/int/long long/double; pointer-to-primitive, pointer cell, fundamental in a cell, registered struct, fixed array field, address, buffer address; '
+               'copy_memory_or_deny_access copy path with host malloc failure) x source placement (interior / ending at the last byte of the region with an application canary '
+               'page behind it) x 0-3 guest mutations (remove / insert terminator, lengthen, flip element, retarget or null the pointer cell, scribble the region) each fired at a '
+               'chosen k-th access RLBox makes to sandbox memory (trap-MMU: PROT_NONE application view, memfd double mapping, single-step), plus an unconditional scribble of '
+               'the whole region inside the verifier and after return; the quick tier enumerates (variant x placement x len in {1,5,16}) x every access index x every mutation; '
+               'non-trivial = at least one mutation fired inside the call; distinct = event-log hashes (include the trap trace R/W@offset)')
+TOCTOU_WORLD = dict(world='toctou', variants=['plain', 'asan'],
+                    quick=dict(count=12000, time_limit=90, enumerate=True, variant_share={'plain': 0.7, 'asan': 0.3}, enum_share={'plain': 1.0, 'asan': 0.25}),
+                    thorough=dict(count=1500000, time_limit=900, enumerate=True, variant_share={'plain': 0.7, 'asan': 0.3}))
+PROPS.update({
+    'C09': dict(level='fault_enumeration', worlds=[TOCTOU_WORLD], rule=TOCTOU_RULE, components=dict(
+                    real_code=COMPONENTS_SIM['real_code'],
+                    stubs=COMPONENTS_SIM['stubs'] + ['trap-MMU (mprotect + SIGSEGV + x86 trap flag) deciding when the guest actor writes', 'host malloc wrapper (-Wl,--wrap=malloc)']),
+                exhaustive_subspace='(18 variants x 2 placements x lengths {1,5,16}) x every access index of the fault-free execution x 7 mutations, single fault per run',
+                expect_probes=['fault_free_run', 'source_ends_at_last_byte_of_region', 'F2_remove_terminator', 'F2_insert_terminator', 'F2_lengthen', 'F2_flip_element',
+                               'F2_retarget_cell', 'F2_null_cell', 'F2_scribble_region', 'F5_host_malloc_null'],
+                assumptions=['interleaving granularity is one machine instruction that touches sandbox memory (an SSE strlen step or memcpy chunk is one access)',
+                             'copy_and_verify_range on long* is excluded (host-width reads at guest stride: a C07 matter, not claimed)',
+                             'provenance oracle: a delivered byte must equal the byte some version of a candidate source location held between call entry and verifier entry',
+                             'the canary page behind the region ends in a NUL so that a runaway strlen stops inside mapped memory']),
 })
